@@ -41,6 +41,25 @@ type c29Op struct {
 	W     int     `json:"w,omitempty"` // writer index
 	Fail  bool    `json:"fail,omitempty"`
 	P     *c29Pkt `json:"p,omitempty"`
+	Cut   int     `json:"cut,omitempty"` // kind 4: keep only the first Cut bytes of the marshalled packet (0 = all)
+}
+
+// c29Raw: the buffer a kind-4 op hands to Write, and what pion/rtp's Unmarshal
+// (run here, on a fresh packet) makes of it - the value of the model's abstract
+// unmarshal function at this buffer.
+func c29Raw(op c29Op) (raw []byte, up *rtp.Packet, uerr error) {
+	pk := op.P.build()
+	pk.Header.Padding, pk.Header.PaddingSize, pk.PaddingSize = false, 0, 0
+	raw, merr := pk.Marshal()
+	if merr != nil {
+		panic(merr)
+	}
+	if op.Cut > 0 && op.Cut < len(raw) {
+		raw = raw[:op.Cut]
+	}
+	up = &rtp.Packet{}
+	uerr = up.Unmarshal(append([]byte{}, raw...))
+	return raw, up, uerr
 }
 
 func (p *c29Pkt) build() *rtp.Packet {
@@ -161,25 +180,70 @@ func c29Run(ops []c29Op) (V, Verdict) {
 
 	for k, op := range ops {
 		switch op.K {
-		case 4: // Write(bytes) of a marshalled packet: direct oracle only (the model sees WriteRTP)
-			pk := op.P.build()
-			pk.Header.Padding, pk.Header.PaddingSize, pk.PaddingSize = false, 0, 0
-			raw, merr := pk.Marshal()
-			if merr != nil {
-				panic(merr)
-			}
+		case 4: // Write(bytes): the model sees WriteRaw with pion/rtp's Unmarshal result supplied by c29Raw
+			raw, up, uerr := c29Raw(op)
 			rawBefore := append([]byte{}, raw...)
 			log = log[:0]
-			_, _ = track.Write(raw)
+			n, werr := track.Write(raw)
+			if uerr != nil {
+				if werr != nil && len(log) == 0 {
+					obs = append(obs, 4, 2)
+				} else { // not what an unmarshal error looks like: shows up as a model mismatch too
+					obs = append(obs, 4, 3, byte(len(log)))
+				}
+				if werr == nil || n != 0 || len(log) != 0 {
+					fail("static-write-bytes-unparsed-delivered", fmt.Sprintf("op %d: Write of %x (unmarshal: %v) returned (%d, %v) and reached %d writers", k, raw, uerr, n, werr, len(log)))
+				}
+				break
+			}
+			nerr := 0
+			for _, b := range bound {
+				if b.fail {
+					nerr++
+				}
+			}
+			ef := byte(0)
+			if werr != nil {
+				ef = 1
+			}
+			obs = append(obs, 4, ef, byte(len(log)))
+			for _, c := range log {
+				obs = append(obs, byte(c.w))
+				obs = append(obs, c29EncPkt(c.hdr.SSRC, c.hdr.PayloadType, c.hdr.PaddingSize, -1, c.rest, c.payload)...)
+			}
+			nWrites++
+			if len(bound) > maxBound {
+				maxBound = len(bound)
+			}
+			nFan += len(log)
+			if n != len(raw) {
+				fail("static-write-bytes-count", fmt.Sprintf("op %d: Write of %d bytes returned %d", k, len(raw), n))
+			}
+			if !ambiguous && (werr != nil) != (nerr > 0) {
+				fail("static-write-error", fmt.Sprintf("op %d: Write returned %v with %d failing bound writers", k, werr, nerr))
+			}
 			if !bytes.Equal(raw, rawBefore) {
 				fail("static-caller-bytes-modified", fmt.Sprintf("op %d: Write changed the caller's buffer", k))
 			}
 			if !ambiguous && len(log) != len(bound) {
 				fail("static-delivery-count", fmt.Sprintf("op %d: Write reached %d writers with %d bindings", k, len(log), len(bound)))
 			}
+			wantRest := c29Rest(&up.Header)
 			for _, c := range log {
-				if !bytes.Equal(c.payload, pk.Payload) {
-					fail("static-payload-changed", fmt.Sprintf("op %d: Write delivered payload %x, caller's %x", k, c.payload, pk.Payload))
+				if !bytes.Equal(c.payload, up.Payload) {
+					fail("static-payload-changed", fmt.Sprintf("op %d: Write delivered payload %x, the buffer carries %x", k, c.payload, up.Payload))
+				}
+				if !bytes.Equal(c.rest, wantRest) {
+					fail("static-field-changed", fmt.Sprintf("op %d: Write delivered header fields %x, the buffer carries %x", k, c.rest, wantRest))
+				}
+				okb := false
+				for _, b := range bound {
+					if b.w == c.w && b.ssrc == c.hdr.SSRC && int(c.hdr.PayloadType) == b.pt {
+						okb = true
+					}
+				}
+				if !okb && !ambiguous {
+					fail("static-write-unbound-or-wrong-ssrc-pt", fmt.Sprintf("op %d: Write delivered to writer %d with ssrc %d pt %d, no such binding", k, c.w, c.hdr.SSRC, c.hdr.PayloadType))
 				}
 			}
 		case 1:
@@ -380,6 +444,15 @@ func c29Prog(ops []c29Op) []byte {
 			out = append(out, 3)
 			out = append(out, c29EncPkt(p.Header.SSRC, p.Header.PayloadType, p.Header.PaddingSize, int(p.PaddingSize),
 				c29Rest(&p.Header), p.Payload)...)
+		case 4:
+			_, up, uerr := c29Raw(op)
+			if uerr != nil {
+				out = append(out, 4, 0)
+				break
+			}
+			out = append(out, 4, 1)
+			out = append(out, c29EncPkt(up.Header.SSRC, up.Header.PayloadType, up.Header.PaddingSize, int(up.PaddingSize),
+				c29Rest(&up.Header), up.Payload)...)
 		}
 	}
 	return out
@@ -460,7 +533,11 @@ func c29Gen(r *Rand, i int) []c29Op {
 			}
 		default:
 			if r.Chance(1, 4) {
-				ops = append(ops, c29Op{K: 4, P: c29GenPkt(r)})
+				o4 := c29Op{K: 4, P: c29GenPkt(r)}
+				if r.Chance(1, 5) {
+					o4.Cut = r.Range(1, 40) // truncated buffer: unmarshal error below 12 bytes, shorter packet or error above
+				}
+				ops = append(ops, o4)
 			} else {
 				ops = append(ops, c29Op{K: 3, P: c29GenPkt(r)})
 			}
